@@ -133,6 +133,8 @@ def check(prop, tier, seed, replay=None):
     if replay:
         ok, out = run.replay_hard(replay, plan["twin"], wd, module="TraceTwin")
         print(out[-3000:] if not ok else "replay: all predicates hold on " + replay)
+        if not ok:
+            print("VIOLATION property=%s replay=%s" % (prop, replay))
         return 0 if ok else 1
     cov = {"states": 0, "transitions": 0, "traces_validated_against_impl": 0, "samples": [],
            "model_runs": [], "scripts": {}}
